@@ -797,7 +797,23 @@ def disclosed(resp, v):
 
 def judge(ctx, cfg, req, resp, opens, fault, stack):
     v = cfg['view']
-    sig = {'stack': stack, 'fault': fault or 'none', 'path': req.cls, 'range': req.range_cls}
+    # Signature fields are the ones an oracle's verdict can depend on (the
+    # shrinker keeps the signature fixed, so irrelevant fields would pin
+    # irrelevant parts of the input): path handling does not look at headers
+    # or faults, range handling does not look at the spelling of the path.
+    full = {'stack': stack, 'fault': fault or 'none', 'path': req.cls, 'range': req.range_cls,
+            'ims': req.ims_cls}
+    fields = {'static.containment': ('stack', 'path'),
+              'static.not_found': ('stack', 'path'),
+              'static.body': ('stack', 'fault', 'path'),
+              'static.range': ('stack', 'fault', 'range'),
+              'static.not_modified': ('stack', 'ims'),
+              'static.fault_status': ('stack', 'fault')}
+
+    def violate(oid, msg, **extra):
+        sg = dict((k, full[k]) for k in fields[oid])
+        sg.update(extra)
+        ctx.violate(oid, msg, **sg)
     show = TREE.show
     what = '%s %s (decoded %r) on prefix %r -> %s%s, fallback %s' % (
         req.method, req.shown[:300], show(req.path)[:300], cfg['prefix'], v.rel,
@@ -817,8 +833,8 @@ def judge(ctx, cfg, req, resp, opens, fault, stack):
                 'sibling_prefix' if p.startswith(v.abs) else 'outside_tree')
         else:
             where = 'external'
-        ctx.violate('static.containment', '%s: open(%r) is outside the configured directory' % (
-            what, show(p)), where=where, **sig)
+        violate('static.containment', '%s: open(%r) is outside the configured directory' % (
+                what, show(p)), where=where)
         break
 
     rem = remainder_of(cfg, req.path)
@@ -835,7 +851,7 @@ def judge(ctx, cfg, req, resp, opens, fault, stack):
 
     if resp.raised is not None and not relaxed:
         oid = 'static.fault_status' if open_fault else ('static.body' if named else 'static.not_found')
-        ctx.violate(oid, '%s: exception escaped: %r' % (what, resp.raised), kind='raised', **sig)
+        violate(oid, '%s: exception escaped: %r' % (what, resp.raised), kind='raised')
         return
     if st is None:
         if not relaxed:
@@ -845,20 +861,20 @@ def judge(ctx, cfg, req, resp, opens, fault, stack):
         ctx.probe(fault + '_404')
     if st == 404:
         if must and not open_fault:
-            ctx.violate('static.body', '%s: 404 although %s is a regular file inside the directory' % (
-                what, named[0].rel), kind='unexpected_404', **sig)
+            violate('static.body', '%s: 404 although %s is a regular file inside the directory' % (
+                    what, named[0].rel), kind='unexpected_404')
         elif not named and req.cls in ('traversal', 'absolute'):
             ctx.probe('traversal_refused')
         return
     if st >= 500:
         if open_fault:
-            ctx.violate('static.fault_status', '%s: injected %s answered with %s instead of 404%s' % (
-                what, fault, st, ' or the fallback' if fb is not None else ''), kind='5xx', **sig)
+            violate('static.fault_status', '%s: injected %s answered with %s instead of 404%s' % (
+                    what, fault, st, ' or the fallback' if fb is not None else ''), kind='5xx')
         elif named:
-            ctx.violate('static.body', '%s: status %s' % (what, st), kind='5xx', **sig)
+            violate('static.body', '%s: status %s' % (what, st), kind='5xx')
         else:
-            ctx.violate('static.not_found', '%s: names no regular file inside the directory, status %s '
-                        'instead of 404' % (what, st), kind='5xx', **sig)
+            violate('static.not_found', '%s: names no regular file inside the directory, status %s '
+                    'instead of 404' % (what, st), kind='5xx')
         return
 
     # a response other than 404/5xx must be a correct serving of a file the
@@ -891,17 +907,17 @@ def judge(ctx, cfg, req, resp, opens, fault, stack):
             if label == 'file' and rem is not None and hostile_spelling(rem) and st in (200, 206, 304, 416):
                 ctx.probe('hostile_spelling_served')
                 if STRICT:
-                    ctx.violate('static.not_found', '%s: [strict reading] a hostile spelling was '
-                                'served (%s)' % (what, st), kind='hostile_spelling', **sig)
+                    violate('static.not_found', '%s: [strict reading] a hostile spelling was '
+                            'served (%s)' % (what, st), kind='hostile_spelling')
             return
         if first is None:
             first = bad
     if not expl:
         d = disclosed(resp, v)
-        ctx.violate('static.not_found', '%s: names no regular file inside the directory, but the status '
-                    'is %s (body %r%s)' % (what, st, resp.body[:40],
-                                           ', which discloses %s' % d if d else ''),
-                    kind='disclosure' if d else 'status', **sig)
+        violate('static.not_found', '%s: names no regular file inside the directory, but the status '
+                'is %s (body %r%s)' % (what, st, resp.body[:40],
+                ', which discloses %s' % d if d else ''),
+                kind='disclosure' if d else 'status')
         return
     oid, kind, msg = first
     if open_fault and kind == 'status':
@@ -911,11 +927,10 @@ def judge(ctx, cfg, req, resp, opens, fault, stack):
         # only the fallback could have explained it
         d = disclosed(resp, v)
         oid = 'static.not_found'
+        kind = 'disclosure' if d else 'not_the_fallback'
         msg = 'names no regular file inside the directory and is not a correct serving of the ' \
               'fallback either: %s%s' % (msg, ' (discloses %s)' % d if d else '')
-    if oid == 'static.not_modified':
-        sig = dict(sig, ims=req.ims_cls)
-    ctx.violate(oid, '%s: %s' % (what, msg), kind=kind, **sig)
+    violate(oid, '%s: %s' % (what, msg), kind=kind)
 
 
 # ---------------------------------------------------------------------------
